@@ -1,3 +1,158 @@
 import TTModel.Proto
-/-! C11 driver — stub (not built yet): answers `bad-op` to everything. -/
-def main : IO Unit := TT.Proto.mainLoop fun _ => "bad-op"
+import TTModel.C11_Cache
+import TTModel.C11_Reads
+import TTModel.C11_Table
+import TTGen.C11_Wiring
+/-!
+C11 driver.  Stateless: one request carries a whole machine (extracted by the harness from real
+torchtree objects), its initial flags / leaf stamps and an operation history; the reply gives,
+after every operation, whether it raised, every dirty flag, every cell whose getter would return
+something different from a fresh rebuild, and the leaf stamps.
+
+  run <node>* | <cell>* | <cell>=<stamp>* | <node>:<flag>* | <op>*
+    node  = Class,setter,listeners,inputs      setter: n | l<cell> | v<parent>:<pcell> | c<flag>:<ch>+<ch> | t<x>
+                                               listeners: j+j+j or -      inputs: u:a+u:e or -
+    cell  = owner,tmpl,reads                   reads: d:1+d:0 or -   (1 = the read clears the flag)
+    op    = A<node>;<asg> | I<node>;<asg> | E<cell> | D<cells>;<x>;<asg> | P<cells>;<cell>;<node>;<after cells>;<asg> | R<nodes>;<asg>
+            asg = cell=stamp+cell=stamp or -
+  classok <Class>      -> 0/1   (classOK of the generated row against the hand-written reads)
+  spec <Class>         -> the generated row, for the harness to show
+-/
+open TT.C11 TT.Proto
+
+def splitPlus (s : String) : List String := if s = "-" || s = "" then [] else s.splitOn "+"
+
+def parseNatList (s : String) : Option (List Nat) := (splitPlus s).mapM String.toNat?
+
+def parsePairs (sep : String) (s : String) : Option (List (Nat × Nat)) :=
+  (splitPlus s).mapM fun w => match w.splitOn sep with
+    | [a, b] => do pure (← a.toNat?, ← b.toNat?)
+    | _ => none
+
+def classIndex (n : String) : Option Nat :=
+  let i := (TTGen.C11_Wiring.classes.map (·.name)).idxOf n
+  if i < TTGen.C11_Wiring.classes.length then some i else none
+
+def parseSetter (s : String) : Option Setter :=
+  if s = "n" then some .none else
+  match s.toList with
+  | 'l' :: r => (String.ofList r).toNat?.map .leaf
+  | 't' :: r => (String.ofList r).toNat?.map .trans
+  | 'v' :: r => match (String.ofList r).splitOn ":" with
+    | [a, b] => do pure (.view (← a.toNat?) (← b.toNat?))
+    | _ => none
+  | 'c' :: r => match (String.ofList r).splitOn ":" with
+    | [f, ch] => do pure (.cat (← parseNatList ch) (← f.toNat?))
+    | _ => none
+  | _ => none
+
+def parseNode (w : String) : Option NodeI :=
+  match w.splitOn "," with
+  | [cls, st, ls, ins] => do
+    let ci ← classIndex cls
+    let st ← parseSetter st
+    let ls ← parseNatList ls
+    let ins ← (splitPlus ins).mapM fun x => match x.splitOn ":" with
+      | [u, "a"] => do pure ((← u.toNat?), Origin.attr)
+      | [u, "e"] => do pure ((← u.toNat?), Origin.explicit)
+      | _ => none
+    pure { cls := ci, listeners := ls, inputs := ins, setter := st }
+  | _ => none
+
+/-- a cell instantiates its class template: guard, sensitivities, mode come from the template -/
+def parseCell (nodes : List NodeI) (w : String) : Option CellI :=
+  match w.splitOn "," with
+  | [o, t, rs] => do
+    let o ← o.toNat?
+    let t ← t.toNat?
+    let rs ← parsePairs ":" rs
+    let nd := nodes.getD o default
+    let (spec, rd) := theTable.getD nd.cls default
+    let tm ← rd.cells[t]?
+    pure { owner := o, tmpl := t, leaf := rd.leaf, guard := cellGuardIdx spec tm, always := tm.always,
+           kinds := tm.kinds, reads := rs.map fun p => (p.1, p.2 != 0) }
+  | _ => none
+
+def mkVal (asg : List (Nat × Nat)) : Nat → Nat :=
+  fun c => ((asg.find? fun p => p.1 == c).map (·.2)).getD 0
+
+def parseOp (w : String) : Option (Op Nat) :=
+  match w.toList with
+  | 'E' :: r => (String.ofList r).toNat?.map .eval
+  | 'A' :: r => match (String.ofList r).splitOn ";" with
+    | [j, a] => do pure (.assign (← j.toNat?) (mkVal (← parsePairs "=" a)))
+    | _ => none
+  | 'I' :: r => match (String.ofList r).splitOn ";" with
+    | [j, a] => do pure (.inplace (← j.toNat?) (mkVal (← parsePairs "=" a)))
+    | _ => none
+  | 'D' :: r => match (String.ofList r).splitOn ";" with
+    | [cs, x, a] => do pure (.draw (← parseNatList cs) (← x.toNat?) (mkVal (← parsePairs "=" a)))
+    | _ => none
+  | 'P' :: r => match (String.ofList r).splitOn ";" with
+    | [cs, cc, j, af, a] => do
+      pure (.propose (← parseNatList cs) (← cc.toNat?) (← j.toNat?) (← parseNatList af) (mkVal (← parsePairs "=" a)))
+    | _ => none
+  | 'R' :: r => match (String.ofList r).splitOn ";" with
+    | [ps, a] => do pure (.reject (← parseNatList ps) (mkVal (← parsePairs "=" a)))
+    | _ => none
+  | _ => none
+
+/-- the uninterpreted value function, instantiated as a hash of (cell, input values) -/
+def hashF (c : Nat) (vs : List Nat) : Nat :=
+  vs.foldl (fun acc v => (acc * 1000003 + v + 1) % 2305843009213693951) (c + 7)
+
+def splitSections (ws : List String) : List (List String) :=
+  let rec go : List String → List String → List (List String) → List (List String)
+    | [], cur, acc => (cur.reverse :: acc).reverse
+    | w :: r, cur, acc => if w = "|" then go r [] (cur.reverse :: acc) else go r (w :: cur) acc
+  go ws [] []
+
+def showState (m : Machine) (raised : Bool) (s : State Nat) : String :=
+  let flags := (List.range m.nN).flatMap fun j =>
+    ((List.range (m.specOf j).flags.length).filter fun f => s.flag j f).map fun f => s!"{j}:{f}"
+  let stale := (List.range m.nC).filter fun c =>
+    (evalF m hashF m.nC c true s).1 != freshF m hashF s.leaf m.nC c
+  let leaves := ((List.range m.nC).filter fun c => (m.cellAt c).leaf).map fun c => s!"{c}={s.leaf c}"
+  s!"r{if raised then 1 else 0};F{"+".intercalate flags};S{"+".intercalate (stale.map toString)};L{"+".intercalate leaves}"
+
+/-- materialise the function-valued state into arrays (keeps closures from piling up) -/
+def normalise (m : Machine) (s : State Nat) : State Nat :=
+  let lf := (Array.ofFn (n := m.nC) fun i => s.leaf i.1)
+  let ch := (Array.ofFn (n := m.nC) fun i => s.cache i.1)
+  let fl := (Array.ofFn (n := m.nN) fun j => Array.ofFn (n := (m.specOf j.1).flags.length) fun f => s.flag j.1 f.1)
+  { leaf := fun c => lf.getD c 0, cache := fun c => ch.getD c none,
+    flag := fun j f => (fl.getD j #[]).getD f false }
+
+def runSteps (m : Machine) : List (Op Nat) → State Nat → List String → List String
+  | [], _, acc => acc.reverse
+  | op :: ops, s, acc =>
+    let r := run m hashF [op] s
+    let s' := normalise m r.st
+    runSteps m ops s' (showState m r.raised s' :: acc)
+
+def handle (line : String) : String :=
+  match splitWords line with
+  | ["classok", n] => if classOK (TTGen.C11_Wiring.find n) (Reads.find n) then "1" else "0"
+  | ["spec", n] => toString (repr (TTGen.C11_Wiring.find n))
+  | ["allclasses"] => " ".intercalate (TTGen.C11_Wiring.classes.map (·.name))
+  | "run" :: rest =>
+    match splitSections rest with
+    | [ns, cs, ls, fs, os] =>
+      match ns.mapM parseNode with
+      | none => "bad-op nodes"
+      | some nodes =>
+      match cs.mapM (parseCell nodes), ls.mapM (fun w => (parsePairs "=" w)), fs.mapM (fun w => parsePairs ":" w),
+            os.mapM parseOp with
+      | some cells, some lvs, some fls, some ops =>
+        let m : Machine := { table := theTable, nodes := nodes, cells := cells }
+        let lv := mkVal lvs.flatten
+        let dirty := fls.flatten
+        let s0 : State Nat := normalise m (initState m hashF lv (fun j f => dirty.contains (j, f)))
+        let b (x : Bool) := if x then "1" else "0"
+        let head := s!"ok wf={b (wfB m)} ww={b (wellWiredB m)} conf={b (conformsB m)} cls={b (classesOKB m)}"
+        " | ".intercalate (head :: showState m false s0 :: runSteps m ops s0 [])
+      | _, _, _, _ => "bad-op payload"
+    | _ => "bad-op sections"
+  | _ => "bad-op"
+
+def main : IO Unit := mainLoop handle
